@@ -300,5 +300,15 @@ def r8_forbid_each(chk: Check) -> None:
     shared.forbid_each_property_rule(chk, "C04.R8", "writeOnly properties in response schemas")
 
 
+def r9_memo(chk: Check) -> None:
+    from . import shared
+
+    P = chk.project
+    mods = ("specs/openapi/schemas.py", "specs/openapi/checks.py", "specs/openapi/references.py", "specs/openapi/utils.py", "specs/openapi/converter.py", "openapi/checks.py", "core/media_types.py", "checks.py")
+    fns = [f for m in mods for f in P.module(m).functions.values() if not isinstance(f.node, ast.Lambda)]
+    shared.memo_key_rule(chk, "C04.R9", fns, {},
+                         "MEMO-KEY(response validation): the schema a response is validated against is chosen by operation, status code AND the received media type (OpenAPI 3: one schema per `content` entry); any explicit cache on that path is keyed by everything the cached value is computed from")
+
+
 def rules(tier: str) -> list:  # type: ignore[type-arg]
-    return [r1_status_lookup, r2_media_type, r3_collected_raise, r4_run_checks, r5_registered, r6_copy_discipline, r7_total_status_expansion, r8_forbid_each]
+    return [r1_status_lookup, r2_media_type, r3_collected_raise, r4_run_checks, r5_registered, r6_copy_discipline, r7_total_status_expansion, r8_forbid_each, r9_memo]
